@@ -527,3 +527,252 @@ pub fn giant_copy(e: En, g: &Giant, ctx: &mut Ctx) {
     ctx.probe("scale.giant_copy");
     ctx.sig(&[9008, e as u64, g.wword as u64, g.rkind as u64, g.copy_to as u64]);
 }
+
+// ------------------------------------------------------------------ C07 / C11: huge positions
+
+/// A stream of up to 2^62 bits: real head words, a run of zero words served by the
+/// sparse stub (directly, or as bytes underneath the real WordAdapter), real tail words.
+#[derive(Clone, Debug, PartialEq, Eq, Serialize, Deserialize)]
+pub struct HugeSeek {
+    pub kind: RdKind,
+    /// None: sparse word backend; Some(None): WordAdapter over sparse bytes;
+    /// Some(Some(c)): WordAdapter over BufReader(c) over sparse bytes
+    pub adapter: Option<Option<usize>>,
+    pub head_words: usize,
+    pub tail_words: usize,
+    pub zero_words: u64,
+    pub seed: u64,
+    pub ops: Vec<HsOp>,
+}
+
+#[derive(Clone, Debug, PartialEq, Eq, Serialize, Deserialize)]
+pub enum HsOp {
+    /// region 0: from the start; 1: from the start of the tail; 2: from the middle of
+    /// the zero run; 3: back from the end
+    Seek { region: u8, off: u64 },
+    Bits(usize),
+    Unary,
+    Skip(u64),
+}
+
+pub fn gen_huge_seek(rng: &mut Rng, kind: RdKind, long_skip: bool) -> HugeSeek {
+    let w = kind.word_bits() as u64;
+    let k = *rng.pick(&[32u32, 32, 33, 35, 40, 48, 56, 62]);
+    let zero_words = if long_skip { (1u64 << 32) / w + rng.below(5) } else { (1u64 << k) / w + rng.below(1000) };
+    let head_words = rng.usize_range(0, 6);
+    let tail_words = rng.usize_range(1, 8);
+    let mut ops = Vec::new();
+    for _ in 0..rng.usize_range(2, 12) {
+        ops.push(match rng.below(10) {
+            0..=4 => HsOp::Seek {
+                region: rng.below(4) as u8,
+                off: if rng.chance(1, 3) { rng.below(3) * w } else { rng.below(3 * w + 70) },
+            },
+            5..=7 => HsOp::Bits(rng.usize_range(0, 64)),
+            8 => HsOp::Unary,
+            _ => HsOp::Skip(rng.below(2 * w + 3)),
+        });
+    }
+    if long_skip {
+        // from the head across the whole zero run
+        let at = rng.usize_range(0, ops.len());
+        ops.insert(at, HsOp::Skip(zero_words * w + rng.below(w + 1)));
+        ops.insert(at, HsOp::Seek { region: 0, off: rng.below(head_words as u64 * w + 1) });
+    }
+    HugeSeek {
+        kind,
+        adapter: match rng.below(3) {
+            0 => None,
+            1 => Some(None),
+            _ => Some(Some(*rng.pick(&[1usize, 7, 64, 4096]))),
+        },
+        head_words,
+        tail_words,
+        zero_words,
+        seed: rng.next(),
+        ops,
+    }
+}
+
+pub fn shrink_huge_seek(g: &HugeSeek) -> Vec<HugeSeek> {
+    let mut out = Vec::new();
+    for ops in shrink_list(&g.ops) {
+        out.push(HugeSeek { ops, ..g.clone() });
+    }
+    if g.adapter.is_some() {
+        out.push(HugeSeek { adapter: None, ..g.clone() });
+    }
+    for z in [0u64, 1 << 20, (1u64 << 32) / g.kind.word_bits() as u64] {
+        if z < g.zero_words {
+            out.push(HugeSeek { zero_words: z, ..g.clone() });
+        }
+    }
+    out
+}
+
+struct HugeModel {
+    head: BitModel,
+    tail: BitModel,
+    zeros: u64,
+}
+
+impl HugeModel {
+    fn total(&self) -> u64 {
+        self.head.len() as u64 + self.zeros + self.tail.len() as u64
+    }
+    fn bit(&self, p: u64) -> u8 {
+        let h = self.head.len() as u64;
+        if p < h {
+            self.head.bits[p as usize]
+        } else if p < h + self.zeros {
+            0
+        } else {
+            self.tail.bits[(p - h - self.zeros) as usize]
+        }
+    }
+    fn get_bits(&self, e: En, p: u64, n: usize) -> u64 {
+        let mut m = BitModel::new();
+        for i in 0..n as u64 {
+            m.bits.push(self.bit(p + i));
+        }
+        m.get_bits(e, 0, n)
+    }
+    /// (zeros, found) from p: length of the zero run and whether a one terminates it
+    fn unary(&self, p: u64) -> Option<u64> {
+        let h = self.head.len() as u64;
+        let mut q = p;
+        while q < self.total() {
+            if q >= h && q < h + self.zeros {
+                q = h + self.zeros;
+                continue;
+            }
+            if self.bit(q) == 1 {
+                return Some(q - p);
+            }
+            q += 1;
+        }
+        None
+    }
+}
+
+pub fn huge_seek(pfx: &str, e: En, g: &HugeSeek, ctx: &mut Ctx) {
+    let w = g.kind.word_bits();
+    let mut r = Rng::new(g.seed);
+    let nbytes = (g.head_words + g.tail_words) * w / 8;
+    let bytes: Vec<u8> = (0..nbytes).map(|_| r.next() as u8).collect();
+    let hb = g.head_words * w / 8;
+    let model = HugeModel {
+        head: BitModel::from_bytes(e, &bytes[..hb]),
+        tail: BitModel::from_bytes(e, &bytes[hb..]),
+        zeros: g.zero_words * w as u64,
+    };
+    let backend = match g.adapter {
+        None => RdBackend::Sparse { head_words: g.head_words, zero_words: g.zero_words },
+        Some(buf) => RdBackend::SparseAdapter { head_words: g.head_words, zero_words: g.zero_words, buf },
+    };
+    let (mut rd, _h) = AnyReader::new(e, g.kind, &backend, &bytes);
+    let total = model.total();
+    let mut pos: u64 = 0;
+    let base = vec![format!("e={:?}", e), format!("reader={:?}", g.kind), format!("backend={}", backend.name()), "scale=huge_positions".to_string()];
+    for (i, op) in g.ops.iter().enumerate() {
+        ctx.ops += 1;
+        let mut t = base.clone();
+        match op {
+            HsOp::Seek { region, off } => {
+                t.push("op=set_bit_pos".into());
+                ctx.step(t);
+                let target = match region {
+                    0 => (*off).min(total),
+                    1 => (model.head.len() as u64 + model.zeros + off).min(total),
+                    2 => (model.head.len() as u64 + model.zeros / 2 + off).min(total),
+                    _ => total - (*off).min(total),
+                };
+                match guard(|| rd.set_bit_pos(target)) {
+                    Ok(Ok(())) => pos = target,
+                    Ok(Err(er)) => {
+                        return ctx.fail(
+                            &format!("{}.seek_refused", pfx),
+                            format!("op #{} set_bit_pos({}) on a stream of {} bits failed: {}", i, target, total, er),
+                        )
+                    }
+                    Err(pm) => return ctx.fail(&format!("{}.panic", pfx), format!("op #{} set_bit_pos({}) panicked: {}", i, target, pm)),
+                }
+                ctx.cover("huge.seek_log2", 64 - target.leading_zeros() as u64);
+            }
+            HsOp::Bits(n) => {
+                if pos + *n as u64 > total {
+                    continue;
+                }
+                t.push("op=read_bits".into());
+                ctx.step(t);
+                let exp = model.get_bits(e, pos, *n);
+                match guard(|| rd.read_bits(*n)) {
+                    Ok(Ok(v)) => {
+                        ctx.ev(v);
+                        if v != exp {
+                            return ctx.fail(
+                                &format!("{}.value_after_seek", pfx),
+                                format!("op #{} read_bits({}) at bit {} returned {:#x}, the stream holds {:#x}", i, n, pos, v, exp),
+                            );
+                        }
+                        pos += *n as u64;
+                    }
+                    Ok(Err(er)) => return ctx.fail(&format!("{}.spurious_error", pfx), format!("op #{} read_bits({}) at bit {} of {} failed: {}", i, n, pos, total, er)),
+                    Err(pm) => return ctx.fail(&format!("{}.panic", pfx), format!("op #{} read_bits({}) at bit {} panicked: {}", i, n, pos, pm)),
+                }
+            }
+            HsOp::Unary => {
+                // only inside the head or the tail (no long runs here)
+                let Some(z) = model.unary(pos) else { continue };
+                if z > 4096 {
+                    continue;
+                }
+                t.push("op=read_unary".into());
+                ctx.step(t);
+                match guard(|| rd.read_unary()) {
+                    Ok(Ok(v)) => {
+                        ctx.ev(v);
+                        if v != z {
+                            return ctx.fail(
+                                &format!("{}.value_after_seek", pfx),
+                                format!("op #{} read_unary at bit {} returned {}, the stream holds {}", i, pos, v, z),
+                            );
+                        }
+                        pos += z + 1;
+                    }
+                    Ok(Err(er)) => return ctx.fail(&format!("{}.spurious_error", pfx), format!("op #{} read_unary at bit {} failed: {}", i, pos, er)),
+                    Err(pm) => return ctx.fail(&format!("{}.panic", pfx), format!("op #{} read_unary at bit {} panicked: {}", i, pos, pm)),
+                }
+            }
+            HsOp::Skip(n) => {
+                if pos + n > total || *n > usize::MAX as u64 {
+                    continue;
+                }
+                t.push("op=skip_bits".into());
+                ctx.step(t);
+                match guard(|| rd.skip_bits(*n as usize)) {
+                    Ok(Ok(())) => pos += n,
+                    Ok(Err(er)) => return ctx.fail(&format!("{}.spurious_error", pfx), format!("op #{} skip_bits({}) at bit {} failed: {}", i, n, pos, er)),
+                    Err(pm) => return ctx.fail(&format!("{}.panic", pfx), format!("op #{} skip_bits({}) at bit {} panicked: {}", i, n, pos, pm)),
+                }
+                ctx.probe_if(*n >= 1 << 32, "scale.skip_2^32");
+            }
+        }
+        match guard(|| rd.bit_pos()) {
+            Ok(Ok(p)) => {
+                ctx.ev(p);
+                if p != pos {
+                    return ctx.fail(
+                        &format!("{}.bit_pos", pfx),
+                        format!("after op #{} ({:?}) bit_pos() = {} but {} stream bits precede the next bit", i, op, p, pos),
+                    );
+                }
+            }
+            Ok(Err(er)) => return ctx.fail(&format!("{}.spurious_error", pfx), format!("bit_pos failed after op #{}: {}", i, er)),
+            Err(pm) => return ctx.fail(&format!("{}.panic", pfx), format!("bit_pos panicked after op #{}: {}", i, pm)),
+        }
+        ctx.progressed = true;
+        ctx.probe_if(pos >= 1 << 32, "scale.position_above_2^32");
+        ctx.sig(&[9007, e as u64, g.kind as u64, g.adapter.is_some() as u64, (pos % w as u64), 64 - pos.leading_zeros() as u64]);
+    }
+}
